@@ -219,6 +219,14 @@ pub fn serve(o: ohkami::Ohkami) -> usize {
 
 /// panicked server-side tasks, without the one panic no property forbids (DESIGN.md 7.1 (s)): `write_all(..).expect(..)` /
 /// `flush().expect(..)` in Response::send after the peer went away — the connection is dead anyway
+pub fn serve_at(o: ohkami::Ohkami, addr: &'static str) -> usize {
+    let id = simcore::spawn_task("server", "server", async move {
+        o.howl(addr).await;
+    });
+    simcore::poll_task_now(id);
+    id
+}
+
 pub fn panicked_tasks() -> Vec<(usize, String, String, u32, String)> {
     all_panicked_tasks()
         .into_iter()
